@@ -1098,3 +1098,116 @@ Proof.
   destruct (Hsnap _ Hsn) as [Hbad|(es & rs & Hin & Hg & Hk & Hm)]; [discriminate Hbad|].
   exists es, rs. repeat split; assumption.
 Qed.
+
+(** ** The statements of props/C03cmd.v (for the repaired rules, [step]) *)
+
+Lemma return_no_open_drain_trace pre eR post s c r s1 :
+  run step init (pre ++ eR :: post) = Some s -> e_k eR = KReturn c r -> run step init pre = Some s1 ->
+  forall g d, nget (drains s1) g = Some d -> owns c d = false.
+Proof.
+  intros Hrun HR R0 g d Hd.
+  change (pre ++ eR :: post) with (pre ++ [eR] ++ post) in Hrun.
+  destruct (run_prefix _ _ _ _ _ Hrun) as (s1' & R0' & Hrun1). rewrite R0 in R0'; injection R0' as <-.
+  destruct (run_prefix _ _ _ _ _ Hrun1) as (s2 & R1 & _).
+  cbn [run] in R1. destruct (step s1 eR) as [s2'|] eqn:E; [|discriminate].
+  assert (K1 : invKAB s1) by (eapply run_invKAB; [apply invKAB_init|exact R0]).
+  exact (return_no_open_drain _ _ _ _ _ _ K1 E HR _ _ (nget_In _ _ _ Hd)).
+Qed.
+
+Lemma issue_kind p pre s1 eI c k name :
+  run (step_gen p) init pre = Some s1 -> In eI pre -> e_k eI = KIssue c k name ->
+  exists cm, nget (cmds s1) c = Some cm /\ c_kind cm = k.
+Proof.
+  intros Hrun Hin HI. apply in_split in Hin. destruct Hin as (a & b & ->).
+  change (a ++ eI :: b) with (a ++ [eI] ++ b) in Hrun.
+  destruct (run_prefix _ _ _ _ _ Hrun) as (s0 & R0 & Hrun1).
+  destruct (run_prefix _ _ _ _ _ Hrun1) as (s2 & R1 & R2).
+  cbn [run] in R1. destruct (step_gen p s0 eI) as [s2'|] eqn:E; [|discriminate]. injection R1 as ->.
+  unfold step_gen in E. destruct (e_t eI <? clock s0); [discriminate|]. cbv zeta in E. rewrite HI in E.
+  destruct (nget (cmds (upd_clock s0 (e_t eI))) c); [discriminate|]. injection E as <-.
+  assert (G : nget (cmds (put (upd_clock s0 (e_t eI)) c (mkC k (e_t eI) 0 0 PNew (e_t eI) None (e_t eI) [] None None None))) c
+              = Some (mkC k (e_t eI) 0 0 PNew (e_t eI) None (e_t eI) [] None None None))
+    by (cbn [cmds put upd_cmds]; apply nget_nset_same).
+  destruct (run_keeps _ _ _ _ R2 _ _ G) as (cm2 & G2 & L). exists cm2. split; [exact G2|].
+  destruct L as (L1 & _). exact L1.
+Qed.
+
+(** a pause / stop that is the only candidate of a Drain call certainly owns it *)
+Lemma pause_stop_certain s t now timeout c cm :
+  invK s -> nget (cmds s) c = Some cm -> is_pause_stop (c_kind cm) = true ->
+  candidates s t now timeout = [c] -> certain s t c = true.
+Proof.
+  intros HK Hc Hps Hcand.
+  assert (Hin : In c (candidates s t now timeout)) by (rewrite Hcand; left; reflexivity).
+  unfold candidates in Hin. apply in_map_iff in Hin. destruct Hin as ([c0 cm0] & E & Hin). cbn [fst] in E. subst c0.
+  apply filter_In in Hin. destruct Hin as [Hin Hd]. cbn [snd] in Hd.
+  rewrite (nodup_nget _ _ _ HK Hin) in Hc. injection Hc as ->.
+  unfold certain. rewrite (nodup_nget _ _ _ HK Hin).
+  unfold drain_candidate in Hd. apply andb_prop in Hd. destruct Hd as [_ Hd].
+  destruct (c_phase cm) as [| | | | | | | | | |[x|]| | | |]; try discriminate; try reflexivity.
+  apply andb_prop in Hd. destruct Hd as [Hd _].
+  destruct (c_kind cm); discriminate.
+Qed.
+
+Lemma deploy_return_drains_begun pre eR post s c eP dt drt fa eS svc ro lb old eN ts :
+  run step init (pre ++ eR :: post) = Some s ->
+  e_k eR = KReturn c CROk ->
+  In eP pre -> e_k eP = KParams c dt drt fa ->
+  In eS pre -> e_by eS = ACmd c -> e_k eS = KSlot svc ro lb (Some old) ->
+  In eN pre -> e_k eN = KLbNew old ts ->
+  exists p1 eI p2 sv, pre = p1 ++ eI :: p2 /\ e_by eI = ACmd c /\ e_k eI = KInstall sv true /\
+    forall t, In t ts -> exists eD orig, In eD p2 /\ e_k eD = KDrainBegin t orig drt.
+Proof. exact (deploy_return_drains_begun_gen false pre eR post s c eP dt drt fa eS svc ro lb old eN ts). Qed.
+
+Lemma owned_drain_ended pre eR post s c r p1 eB p2 sB t orig timeout :
+  run step init (pre ++ eR :: post) = Some s -> e_k eR = KReturn c r ->
+  pre = p1 ++ eB :: p2 -> run step init p1 = Some sB ->
+  e_k eB = KDrainBegin t orig timeout -> orig <> TDraining ->
+  candidates sB t (e_t eB) timeout = [c] -> certain sB t c = true ->
+  exists q1 eE q2 o n, p2 = q1 ++ eE :: q2 /\ goid (e_by eE) = goid (e_by eB) /\ e_k eE = KStateSet t o n /\
+    (forall e', In e' q1 -> goid (e_by e') = goid (e_by eB) -> forall t' o' n', e_k e' <> KStateSet t' o' n') /\
+    (exists eC, In eC q1 /\ goid (e_by eC) = goid (e_by eB) /\ e_k eC = KDrainCancelRest t).
+Proof.
+  intros Hrun HR Epre RB HB Ho Hcand Hcert.
+  destruct (owned_drain_ended_gen false _ _ _ _ _ _ _ _ _ _ _ _ _ Hrun HR Epre RB HB Ho (begin_owners_single _ _ _ _ _ Hcand Hcert))
+    as (q1 & eE & q2 & o & n & E & Hg & Hk & Hno & Hcr).
+  exists q1, eE, q2, o, n. repeat split; try assumption. exact (Hcr I).
+Qed.
+
+(** pause / stop: the command is the only candidate — that suffices *)
+Lemma pause_stop_drain_ended pre eR post s c r eI k name p1 eB p2 sB t orig timeout :
+  run step init (pre ++ eR :: post) = Some s -> e_k eR = KReturn c r ->
+  pre = p1 ++ eB :: p2 -> run step init p1 = Some sB ->
+  In eI p1 -> e_k eI = KIssue c k name -> is_pause_stop k = true ->
+  e_k eB = KDrainBegin t orig timeout -> orig <> TDraining ->
+  candidates sB t (e_t eB) timeout = [c] ->
+  exists q1 eE q2 o n, p2 = q1 ++ eE :: q2 /\ goid (e_by eE) = goid (e_by eB) /\ e_k eE = KStateSet t o n /\
+    (forall e', In e' q1 -> goid (e_by e') = goid (e_by eB) -> forall t' o' n', e_k e' <> KStateSet t' o' n') /\
+    (exists eC, In eC q1 /\ goid (e_by eC) = goid (e_by eB) /\ e_k eC = KDrainCancelRest t).
+Proof.
+  intros Hrun HR Epre RB HinI HI Hps HB Ho Hcand.
+  destruct (issue_kind _ _ _ _ _ _ _ RB HinI HI) as (cm & Hc & Hk).
+  assert (KB : invKAB sB) by (eapply run_invKAB; [apply invKAB_init|exact RB]).
+  assert (Hcert : certain sB t c = true).
+  { eapply pause_stop_certain; [exact (proj1 KB)|exact Hc|rewrite Hk; exact Hps|exact Hcand]. }
+  exact (owned_drain_ended _ _ _ _ _ _ _ _ _ _ _ _ _ Hrun HR Epre RB HB Ho Hcand Hcert).
+Qed.
+
+Lemma joint_settled pre eR post st sf c r p1 eB p2 sB t orig timeout :
+  run step init (pre ++ eR :: post) = Some st ->
+  run M5full.step M5full.init (pre ++ eR :: post) = Some sf ->
+  e_k eR = KReturn c r -> pre = p1 ++ eB :: p2 -> run step init p1 = Some sB ->
+  e_k eB = KDrainBegin t orig timeout -> orig <> TDraining ->
+  candidates sB t (e_t eB) timeout = [c] -> certain sB t c = true ->
+  exists q1 eE q2 o n fs x d sn,
+    p2 = q1 ++ eE :: q2 /\ goid (e_by eE) = goid (e_by eB) /\ e_k eE = KStateSet t o n /\
+    (forall e', In e' q1 -> goid (e_by e') = goid (e_by eB) -> forall t' o' n', e_k e' <> KStateSet t' o' n') /\
+    run M5full.step M5full.init (p1 ++ eB :: q1) = Some fs /\
+    nget (M5full.targets fs) t = Some x /\ nget (M5full.t_drains x) (goid (e_by eB)) = Some d /\
+    M5full.d_cancelled d = true /\ M5full.d_snap d = Some sn /\
+    (forall rq, In rq sn -> ~ In rq (M5full.t_inflight x) \/ M5fullFacts.cancelled fs rq = true) /\
+    (exists es rs, In es q1 /\ goid (e_by es) = goid (e_by eB) /\ e_k es = KDrainSnapshot t rs /\ map fst rs = sn).
+Proof.
+  intros Hrt Hrf HR Epre RB HB Ho Hcand Hcert.
+  exact (joint_settled_gen false _ _ _ _ _ _ _ _ _ _ _ _ _ _ Hrt Hrf HR Epre RB HB Ho (begin_owners_single _ _ _ _ _ Hcand Hcert)).
+Qed.
